@@ -37,6 +37,7 @@ type loopInfo struct {
 	body    map[*ssa.BasicBlock]bool
 	keys    map[string]bool // heap key prefixes written in the body
 	all     bool            // havoc everything
+	depth   int
 }
 
 type FnCtx struct {
@@ -64,6 +65,7 @@ type FnCtx struct {
 	keySorts  map[string]string
 	locksTouched map[string]bool
 	reachableReturns int
+	exercised map[*AtCall]bool
 }
 
 type callFrame struct {
@@ -194,6 +196,7 @@ func (fx *FnCtx) loopWrites(li *loopInfo) {
 				li.keys["P|"] = true
 				li.keys["V|"] = true
 				li.keys["N|"] = true
+				li.keys["M|map:"] = true
 			case *ssa.Send, *ssa.Select:
 				li.keys["X|"] = true
 			case *ssa.Go:
@@ -217,6 +220,7 @@ func (fx *FnCtx) callWrites(li *loopInfo, cc *ssa.CallCommon) {
 			li.keys["P|"] = true
 			li.keys["V|"] = true
 			li.keys["N|"] = true
+			li.keys["M|map:"] = true
 		case "close":
 			li.keys["X|"] = true
 		}
@@ -233,11 +237,72 @@ func (fx *FnCtx) callWrites(li *loopInfo, cc *ssa.CallCommon) {
 		if c.Pure || (c.HasFrame && len(c.Assigns) == 0) {
 			return
 		}
+		if c.HasFrame {
+			ok := true
+			for _, a := range c.Assigns {
+				id, isId := a.(*EIdent)
+				if !isId {
+					ok = false
+					break
+				}
+				if g, isG := fx.eng.CS.GVars[id.Name]; isG {
+					li.keys["G|"+g.Name] = true
+				} else if id.Name == "timers" {
+					li.keys["T|"] = true
+				} else if id.Name == "channels" {
+					li.keys["X|"] = true
+				} else {
+					ok = false
+				}
+			}
+			if ok {
+				return
+			}
+		}
 		li.all = true
 		return
 	}
 	if isAssumedPure(key) {
 		return
+	}
+	// a callee that will be inlined: its writes are the loop's writes
+	var callee *ssa.Function
+	if f := cc.StaticCallee(); f != nil {
+		callee = f
+	} else if mc, ok := cc.Value.(*ssa.MakeClosure); ok {
+		callee, _ = mc.Fn.(*ssa.Function)
+	}
+	if callee != nil && callee.Blocks != nil && (inRepo(callee) || callee.Synthetic != "") && li.depth < 4 {
+		loopFree := true
+		for _, b := range callee.Blocks {
+			for _, s := range b.Succs {
+				if s.Dominates(b) {
+					loopFree = false
+				}
+			}
+		}
+		if loopFree {
+			li.depth++
+			for _, b := range callee.Blocks {
+				for _, ins := range b.Instrs {
+					switch x := ins.(type) {
+					case *ssa.Store:
+						li.keys[staticKeyPrefix(x.Addr)] = true
+					case *ssa.MapUpdate:
+						li.keys["P|"] = true
+						li.keys["V|"] = true
+						li.keys["N|"] = true
+						li.keys["M|map:"] = true
+					case *ssa.Call:
+						fx.callWrites(li, &x.Call)
+					case *ssa.Defer:
+						fx.callWrites(li, &x.Call)
+					}
+				}
+			}
+			li.depth--
+			return
+		}
 	}
 	li.all = true
 }
@@ -933,6 +998,15 @@ func (fx *FnCtx) convert(st *State, v *Val, from, to types.Type) *Val {
 	case isStringT(to) && isIntegerT(from):
 		sol.Declare("str_of_rune", "(declare-fun str_of_rune (Int) Int)")
 		return mkInt("(str_of_rune "+v.S+")", to)
+	case isFloatT(from) && isIntegerT(to) && strings.HasPrefix(v.S, "(dur_seconds "):
+		// uintN(d.Seconds()): exact for whole seconds that fit the target (float64 holds them exactly) - assumption A12
+		d := v.S[len("(dur_seconds ") : len(v.S)-1]
+		r := mkInt(fx.fresh("secs", "Int"), to)
+		st.assumeWF(r, false)
+		_, hi, _ := intRange(to)
+		q := tDivE(d, "1000000000")
+		sol.Assert(tImp(tAnd(tEq(tModE(d, "1000000000"), "0"), tCmp("<=", "0", q), tCmp("<=", q, num(hi))), tEq(r.S, q)))
+		return r
 	case isFloatT(to) || isFloatT(from):
 		name := "conv_" + sanitize(typeKey(from)) + "_" + sanitize(typeKey(to))
 		sol.Declare(name, "(declare-fun "+name+" (Int) Int)")
@@ -1094,8 +1168,8 @@ func (fx *FnCtx) checkFrameStore(st *State, l *Loc) {
 			if !l.Mem && strings.HasPrefix(prefix, t.key) {
 				alts = append(alts, tEq(l.Ref, t.ref))
 			}
-		case "mem":
-			if l.Mem && strings.HasPrefix(prefix, t.key) {
+		case "mem", "cell":
+			if l.Mem && strings.HasPrefix(prefix, strings.TrimSuffix(t.key, "|")) {
 				alts = append(alts, tEq(l.Ref, t.ref))
 			}
 		}
